@@ -13,4 +13,6 @@ def ev(kind, ident, arg=None):
     if kind == "ctor" and ident in FAIL_CTOR:
         if FAIL_KIND.get(ident) == "base":
             raise Fatal(f"injected constructor failure in {ident}")
+        if FAIL_KIND.get(ident) == "type":
+            raise TypeError(f"injected constructor failure in {ident}")
         raise RuntimeError(f"injected constructor failure in {ident}")
